@@ -15,8 +15,8 @@
 package derive
 
 import (
+	"go/token"
 	"go/types"
-	"strings"
 )
 
 // Named describes a named struct with a list of fields.
@@ -48,7 +48,7 @@ func (f *Field) DebugName() string {
 
 // Private whether the field is private
 func (f *Field) Private() bool {
-	return strings.ToLower(f.name[0:1]) == f.name[0:1]
+	return !token.IsExported(f.name)
 }
 
 // Fields returns a new Named object containing a list of Fields for a given input struct.
